@@ -18,8 +18,20 @@ Property clause                                   theorem
   several relations not feeding one another       chain_independent, chain_frame, chain_identity
   bounds constraint clips into the box / identity bounds_in_box, bounds_identity_inside
 `chain_opt_eq` ties the exception-aware `chain?` the driver runs to the total `chain` of the theorems.
+
+Composition modes of `generate_constraint` (Model/EmittedJoin.lean):
+  ctype= any mix of inner / outer couplers          compose_eq_chain_order, compose_opt_eq, compose_independent,
+                                                    compose_frame (independent systems: EVERY order works)
+  relations that DO feed one another                compose_feeding_partial (only the relation applied last is guaranteed),
+                                                    compose_feeding_order_matters (closed witness: the default inner nesting
+                                                    of `x0 = x1 ; x1 = 5` violates `x0 = x1`, the outer nesting satisfies both)
+  join=and_ / or_ (mystic.constraints)              fixed_point_margin (a vector a solver leaves unchanged satisfies its
+                                                    relation - for ALL systems, fed or not), member_idem,
+                                                    join_and_all_hold, join_or_some_holds
 -/
 import MysticVerif.Proofs.Emitted
+import MysticVerif.Proofs.EmittedJoin
+import MysticVerif.Props.C17
 
 set_option linter.unusedSectionVars false
 set_option linter.unusedVariables false
@@ -168,7 +180,7 @@ theorem strict_band_moves_feasible_point :
     ∃ (env : Env Nat ℚ) (r : Rel Nat) (code : Assign Nat) (x : List ℚ),
       recognise (fun c => decide (0 < c)) 1 r code = true ∧ r.rhs.mentions r.i = false ∧
       0 < env.tol ∧ 0 ≤ env.rel ∧ r.holds env x ∧ code.exec env x ≠ x := by
-  refine ⟨⟨fun n => (n : ℚ), 1, 0⟩, ⟨0, .lt, .var 1⟩, emitG ⟨0, .lt, .var 1⟩ .false_ 1, [1 / 2, 1],
+  refine ⟨{ ι := fun n => (n : ℚ), tol := 1, rel := 0 }, ⟨0, .lt, .var 1⟩, emitG ⟨0, .lt, .var 1⟩ .false_ 1, [1 / 2, 1],
     by decide, by decide, by norm_num, by norm_num, ?_, ?_⟩
   · simp only [Rel.holds, Cmp.holds, Expr.eval]; norm_num
   · simp only [emitG, Assign.exec, Expr.eval, tolf, absR, pyMin]; norm_num
@@ -390,11 +402,290 @@ theorem bounds_identity_inside [DecidableEq C] (env : Env C K) (isPos : C → Bo
     rcases hb with hc | hc <;> simp only at hc <;> subst hc <;>
       simp only [Rel.margin, Rel.holds, Cmp.holds, Expr.eval] at h ⊢ <;> simpa using h
 
+
+/-! ## composition modes of `generate_constraint`: `ctype=` (inner / outer couplers) -/
+
+/-- **`ctype=` is a reordering.** `generate_constraint(solvers, ctype=[..])` with any mix of `inner` and `outer`
+couplers computes `chain` of the statements in the order `order ws`, which is a permutation of the solvers
+(`order_perm`): an `inner` level runs its solver before, an `outer` level after everything wrapped so far. -/
+theorem compose_eq_chain_order (env : Env C K) (ws : List (CType × Assign C)) (x : List K) :
+    compose env ws x = chain env (order ws) x ∧ (order ws).Perm (ws.map (·.2)) :=
+  ⟨compose_from env ws id [] (fun _ => rfl) x, order_perm ws⟩
+
+/-- `compose?` (what the driver runs, with python's exceptions) agrees with the total `compose` -/
+theorem compose_opt_eq (env : Env C K) (ws : List (CType × Assign C)) (x y : List K)
+    (h : compose? env ws x = some y) : y = compose env ws x :=
+  composeOpt_from env ws some id (fun _ _ h => by simpa using h.symm) x y h
+
+private theorem forall2_of_pairs {α β : Type} (P : α → β → Prop) :
+    ∀ l : List (α × β), (∀ p ∈ l, P p.1 p.2) → List.Forall₂ P (l.map (·.1)) (l.map (·.2))
+  | [], _ => List.Forall₂.nil
+  | p :: l, h => List.Forall₂.cons (h p (by simp)) (forall2_of_pairs P l (fun q hq => h q (by simp [hq])))
+
+/-- **Independent systems, every order (property clause 4 for every `ctype`).** Accepted statements for relations
+with pairwise distinct left-hand variables, none of which occurs in any right-hand side (nor in a `!=` factor),
+composed through ANY list of `inner` / `outer` couplers: the output satisfies ALL relations at once. -/
+theorem compose_independent [DecidableEq C] (env : Env C K) (isPos : C → Bool) (d : C)
+    (hpos : ∀ c, isPos c = true → 0 < env.ι c) (htol : 0 ≤ env.tol) (hrel : 0 ≤ env.rel)
+    (items : List (CType × Rel C × Assign C)) (x : List K)
+    (hrec : ∀ t ∈ items, recognise isPos d t.2.1 t.2.2 = true)
+    (hlen : ∀ t ∈ items, t.2.1.i < x.length)
+    (hnodup : (items.map (·.2.1.i)).Nodup)
+    (hfree : ∀ t ∈ items, ∀ t' ∈ items, t'.2.1.rhs.mentions t.2.1.i = false)
+    (hB : ∀ t ∈ items, ∀ t' ∈ items, t.2.2.factor.mentions t'.2.1.i = false)
+    (hstrict : ∀ t ∈ items, t.2.1.cmp.strict = true → 0 < env.tol) :
+    ∀ t ∈ items, t.2.1.holds env (compose env (items.map fun t => (t.1, t.2.2)) x) := by
+  have hperm : (order items).Perm (items.map (·.2)) := order_perm items
+  have hmem : ∀ p, p ∈ order items ↔ ∃ t ∈ items, t.2 = p := by
+    intro p; rw [hperm.mem_iff]; simp
+  have hcodes : order (items.map fun t => (t.1, t.2.2)) = (order items).map (·.2) :=
+    order_map (fun q : Rel C × Assign C => q.2) items
+  rw [(compose_eq_chain_order env _ x).1, hcodes]
+  have key := chain_independent env isPos d hpos htol hrel ((order items).map (·.1)) ((order items).map (·.2)) x
+    (forall2_of_pairs _ _ (fun p hp => by obtain ⟨t, ht, rfl⟩ := (hmem p).mp hp; exact hrec t ht))
+    (by intro r hr; simp only [List.mem_map] at hr; obtain ⟨p, hp, rfl⟩ := hr
+        obtain ⟨t, ht, rfl⟩ := (hmem p).mp hp; exact hlen t ht)
+    (by have h1 : ((order items).map (·.1)).Perm ((items.map (·.2)).map (·.1)) := hperm.map _
+        have h2 : (((order items).map (·.1)).map (·.i)).Perm (items.map (·.2.1.i)) := by
+          have := h1.map (fun r : Rel C => r.i)
+          simpa [List.map_map, Function.comp_def] using this
+        exact h2.nodup_iff.mpr hnodup)
+    (by intro r hr r' hr'; simp only [List.mem_map] at hr hr'
+        obtain ⟨p, hp, rfl⟩ := hr; obtain ⟨p', hp', rfl⟩ := hr'
+        obtain ⟨t, ht, rfl⟩ := (hmem p).mp hp; obtain ⟨t', ht', rfl⟩ := (hmem p').mp hp'
+        exact hfree t ht t' ht')
+    (by intro c hc r hr; simp only [List.mem_map] at hc hr
+        obtain ⟨p, hp, rfl⟩ := hc; obtain ⟨p', hp', rfl⟩ := hr
+        obtain ⟨t, ht, rfl⟩ := (hmem p).mp hp; obtain ⟨t', ht', rfl⟩ := (hmem p').mp hp'
+        exact hB t ht t' ht')
+    (by intro r hr; simp only [List.mem_map] at hr; obtain ⟨p, hp, rfl⟩ := hr
+        obtain ⟨t, ht, rfl⟩ := (hmem p).mp hp; exact hstrict t ht)
+  intro t ht
+  exact key t.2.1 (by simp only [List.mem_map]; exact ⟨t.2, (hmem t.2).mpr ⟨t, ht, rfl⟩, rfl⟩)
+
+/-- **Frame of every composition mode.** Coordinates that are no statement's target are untouched, whatever the couplers. -/
+theorem compose_frame (env : Env C K) (ws : List (CType × Assign C)) (x : List K) :
+    (compose env ws x).length = x.length ∧
+    ∀ j, (∀ w ∈ ws, w.2.i ≠ j) → (compose env ws x).getD j 0 = x.getD j 0 := by
+  rw [(compose_eq_chain_order env ws x).1]
+  refine ⟨(chain_frame env _ x).1, fun j hj => (chain_frame env _ x).2 j ?_⟩
+  intro c hc
+  have : c ∈ ws.map (·.2) := (order_perm ws).mem_iff.mp hc
+  simp only [List.mem_map] at this
+  obtain ⟨w, hw, rfl⟩ := this
+  exact hj w hw
+
+/-- **Relations that feed one another, partial.** Without independence only the relation whose statement runs LAST
+is guaranteed (for `ctype=None`: the LAST line of the text, because `constraints_parser` reverses the lines and
+`inner` nesting reverses them again). Full clause (`∀ r, r.holds ..`) is false: `compose_feeding_order_matters`. -/
+theorem compose_feeding_partial [DecidableEq C] (env : Env C K) (isPos : C → Bool) (d : C)
+    (hpos : ∀ c, isPos c = true → 0 < env.ι c) (htol : 0 ≤ env.tol) (hrel : 0 ≤ env.rel)
+    (r : Rel C) (code : Assign C) (rest : List (Assign C)) (x : List K)
+    (hrec : recognise isPos d r code = true) (hi : r.i < x.length)
+    (hfree : r.rhs.mentions r.i = false) (hB : code.factor.mentions r.i = false)
+    (hstrict : r.cmp.strict = true → 0 < env.tol) :
+    r.holds env (chain env (code :: rest) x) := by
+  rw [chain_cons]
+  exact solver_enforces env isPos d hpos htol hrel r code _ hrec (by rw [chain_length]; exact hi) hfree hB hstrict
+
+/-- **Order matters when a left-hand variable feeds another line (closed witness).** The text `x0 = x1 ; x1 = 5`
+(accepted statements, distinct left-hand variables, but `x1` feeds the first line) at `x = [0, 0]`:
+the default inner nesting stores `x0 := x1` BEFORE `x1 := 5` and returns `[0, 5]`, where `x0 = x1` fails;
+the same solvers under `ctype=outer` return `[5, 5]`, where both relations hold. -/
+theorem compose_feeding_order_matters :
+    ∃ (env : Env Nat ℚ) (r0 r1 : Rel Nat) (c0 c1 : Assign Nat) (x : List ℚ),
+      recognise (fun c => decide (0 < c)) 1 r0 c0 = true ∧ recognise (fun c => decide (0 < c)) 1 r1 c1 = true ∧
+      r0.i ≠ r1.i ∧ r0.rhs.mentions r1.i = true ∧
+      compose env [(.inner, c1), (.inner, c0)] x = [0, 5] ∧ ¬ r0.holds env [0, 5] ∧
+      compose env [(.outer, c1), (.outer, c0)] x = [5, 5] ∧ r0.holds env [5, 5] ∧ r1.holds env [5, 5] := by
+  refine ⟨{ ι := fun n => (n : ℚ), tol := 0, rel := 0 }, ⟨0, .eq, .var 1⟩, ⟨1, .eq, .num 5⟩,
+    ⟨0, .var 1⟩, ⟨1, .num 5⟩, [0, 0], by decide, by decide, by decide, by decide, ?_, ?_, ?_, ?_, ?_⟩
+  · simp [compose, step, Assign.exec, Expr.eval]
+  · simp [Rel.holds, Cmp.holds, Expr.eval]
+  · simp [compose, step, Assign.exec, Expr.eval]
+  · simp [Rel.holds, Cmp.holds, Expr.eval]
+  · simp [Rel.holds, Cmp.holds, Expr.eval]
+
+/-! ## composition modes of `generate_constraint`: `join=and_ / or_` -/
+
+/-- **A vector that a solver leaves unchanged satisfies its relation** (with the margin of the code; NO independence
+hypothesis: this holds for systems whose lines feed one another, too). It is what turns the fixed-point
+guarantees of `constraints.and_ / or_` (C17) into statements about the relations of the text. -/
+theorem fixed_point_margin [DecidableEq C] (env : Env C K) (isPos : C → Bool) (d : C)
+    (hpos : ∀ c, isPos c = true → 0 < env.ι c) (hrel : 0 ≤ env.rel)
+    (r : Rel C) (code : Assign C) (x : List K)
+    (hrec : recognise isPos d r code = true) (hi : r.i < x.length)
+    (hne : r.cmp = .ne → 0 < env.tol) (hfix : code.exec env x = x) :
+    r.margin env code.factor x := by
+  obtain ⟨hcode, _, hp⟩ := recognise_spec hrec
+  have hci : code.i = r.i := recognise_i hrec
+  have hv : code.e.eval env x = x.getD r.i 0 := by
+    have := exec_getD_self env code x (by rw [hci]; exact hi)
+    rw [hfix, hci] at this; exact this.symm
+  rw [hcode] at hv
+  obtain ⟨i, cmp, rhs⟩ := r
+  cases cmp <;> simp only [Rel.margin] <;> simp only [emitG, Expr.eval] at hv
+  · exact hv.symm
+  · rw [← hv]; exact pyMin_le_left _ _
+  · rw [← hv]; exact le_pyMax_left _ _
+  · rw [← hv]; exact pyMin_le_left _ _
+  · rw [← hv]; exact le_pyMax_left _ _
+  · intro hx
+    have ht := tolf_pos env (hne rfl) hrel (rhs.eval env x)
+    have hc : 0 < env.ι (code.scale d) := hpos _ (hp rfl)
+    have hb : (x.getD i 0 == rhs.eval env x) = true := by simpa using hx
+    rw [hb] at hv; simp only [b2r, if_true, one_mul] at hv
+    have := mul_pos ht hc
+    linarith
+
+private theorem emitG_defined_exec (env : Env C K) (r : Rel C) (B : Expr C) (s : C) (a : List K)
+    (hfr : r.rhs.mentions r.i = false) (hBc : B.mentions r.i = false)
+    (hdef : (emitG r B s).defined env a = true) :
+    (emitG r B s).defined env ((emitG r B s).exec env a) = true := by
+  unfold Assign.defined at hdef ⊢
+  simp only [Bool.and_eq_true, decide_eq_true_eq] at hdef ⊢
+  refine ⟨by rw [exec_length]; exact hdef.1, ?_⟩
+  have hd2 := hdef.2
+  unfold Assign.exec
+  rw [emitG_i]
+  have e1 := defined_set_of_not_mentions env a r.i
+  have e2 := eval_set_of_not_mentions env a r.i
+  have hia : r.i < a.length := by have := hdef.1; rwa [emitG_i] at this
+  obtain ⟨ri, cmp, rhs⟩ := r
+  simp only at hfr hBc e1 e2 hia
+  cases cmp <;>
+    simp only [emitG, Expr.defined, Bool.and_eq_true, decide_eq_true_eq, List.length_set] at hd2 ⊢ <;>
+    simp only [e1 _ rhs hfr, e1 _ B hBc, e2 _ rhs hfr, e2 _ B hBc] <;>
+    first | exact hd2 | simp_all
+
+/-- **Solver members are idempotent** (the hypothesis of C17's `and_success_fixed`): where an accepted statement
+whose right-hand side and `!=` factor do not read `x_i` runs without raising, running it again raises nothing
+and changes nothing. -/
+theorem member_idem [DecidableEq C] (env : Env C K) (isPos : C → Bool) (d : C)
+    (hpos : ∀ c, isPos c = true → 0 < env.ι c) (htol : 0 ≤ env.tol) (hrel : 0 ≤ env.rel)
+    (rels : List (Rel C)) (codes : List (Assign C))
+    (hrec : List.Forall₂ (fun r c => recognise isPos d r c = true) rels codes)
+    (hfree : ∀ r ∈ rels, r.rhs.mentions r.i = false)
+    (hB : List.Forall₂ (fun r (c : Assign C) => c.factor.mentions r.i = false) rels codes)
+    (hne : ∀ r ∈ rels, r.cmp = .ne → 0 < env.tol) (i : Nat) :
+    C17.Idem (member env codes i) := by
+  intro a b hab
+  unfold member at hab ⊢
+  cases hc : codes[i]? with
+  | none => rfl
+  | some c =>
+    rw [hc] at hab; simp only at hab ⊢
+    split at hab
+    · rename_i hdef
+      simp only [Option.some.injEq] at hab
+      subst hab
+      -- the relation this statement was emitted for
+      have hlt : i < codes.length := by
+        rcases Nat.lt_or_ge i codes.length with h | h
+        · exact h
+        · rw [List.getElem?_eq_none h] at hc; exact absurd hc (by simp)
+      have hlen := hrec.length_eq
+      have hci : codes[i] = c := by rw [List.getElem?_eq_getElem hlt] at hc; exact Option.some.inj hc
+      have hri : i < rels.length := by omega
+      have hrc : recognise isPos d rels[i] c = true := by
+        have := List.forall₂_iff_get.mp hrec |>.2 i hri hlt
+        simpa [hci] using this
+      have hBc : c.factor.mentions rels[i].i = false := by
+        have := List.forall₂_iff_get.mp hB |>.2 i hri hlt
+        simpa [hci] using this
+      have hmem : rels[i] ∈ rels := List.getElem_mem hri
+      have hfr := hfree _ hmem
+      have hcode := (recognise_spec hrc).1
+      have hcidx : c.i = rels[i].i := recognise_i hrc
+      have hia : rels[i].i < a.length := by
+        unfold Assign.defined at hdef
+        simp only [Bool.and_eq_true, decide_eq_true_eq] at hdef
+        rw [← hcidx]; exact hdef.1
+      have hm := solver_enforces_margin env isPos d hpos htol hrel rels[i] c a hrc hia hfr hBc (hne _ hmem)
+      have hid := solver_identity_partial env isPos d rels[i] c (c.exec env a) hrc hm
+      have hdefb : c.defined env (c.exec env a) = true := by
+        have := emitG_defined_exec env rels[i] c.factor (c.scale d) a hfr hBc (by rw [← hcode]; exact hdef)
+        rw [← hcode] at this; exact this
+      rw [if_pos hdefb, hid]
+    · simp at hab
+
+/-- **`join=and_`: a success is a solution of the whole text.** If `constraints.and_` over the solver members
+reports success with an intact history window (`n ≤ links`: no random replacement inside it, in particular on
+every run that draws nothing), every relation holds at the returned vector - for ANY accepted system whose
+statements do not read their own target, whether or not the lines feed one another. -/
+theorem join_and_all_hold [DecidableEq C] (env : Env C K) (isPos : C → Bool) (d : C)
+    (hpos : ∀ c, isPos c = true → 0 < env.ι c) (htol : 0 ≤ env.tol) (hrel : 0 ≤ env.rel)
+    (rels : List (Rel C)) (codes : List (Assign C)) (x : List K) (draws : List (List K))
+    (hrec : List.Forall₂ (fun r c => recognise isPos d r c = true) rels codes)
+    (hfree : ∀ r ∈ rels, r.rhs.mentions r.i = false)
+    (hB : List.Forall₂ (fun r (c : Assign C) => c.factor.mentions r.i = false) rels codes)
+    (hstrict : ∀ r ∈ rels, r.cmp.strict = true → 0 < env.tol)
+    (y : List K) (t links : Nat) (st : Comb.Stats)
+    (hr : joinAnd env codes x draws = (.success y t links, st)) (hlinks : codes.length ≤ links) :
+    ∀ r ∈ rels, r.holds env y := by
+  have hne : ∀ r ∈ rels, r.cmp = .ne → 0 < env.tol := fun r hr h => hstrict r hr (by rw [h]; rfl)
+  have hfix := C17.and_success_fixed (member env codes) (fun d _ => d) codes.length (100 * codes.length) x draws
+    y t links st (fun i _ => member_idem env isPos d hpos htol hrel rels codes hrec hfree hB hne i) hr hlinks
+  intro r hrm
+  obtain ⟨i, hi, rfl⟩ := List.getElem_of_mem hrm
+  have hlen := hrec.length_eq
+  have hlt : i < codes.length := by omega
+  have hrc : recognise isPos d rels[i] codes[i] = true := List.forall₂_iff_get.mp hrec |>.2 i hi hlt
+  have hm := hfix i hlt
+  unfold member at hm
+  rw [List.getElem?_eq_getElem hlt] at hm
+  simp only at hm
+  split at hm
+  · rename_i hdef
+    have hex : codes[i].exec env y = y := Option.some.inj hm
+    have hiy : rels[i].i < y.length := by
+      unfold Assign.defined at hdef
+      simp only [Bool.and_eq_true, decide_eq_true_eq] at hdef
+      rw [← recognise_i hrc]; exact hdef.1
+    refine margin_holds env htol hrel rels[i] codes[i].factor y ?_ (hstrict _ hrm)
+      (fixed_point_margin env isPos d hpos hrel rels[i] codes[i] y hrc hiy (hne _ hrm) hex)
+    intro hc
+    exact isBool_eval_nonneg env _ _ ((recognise_spec hrc).2.1 hc)
+  · simp at hm
+
+/-- **`join=or_`: a success satisfies at least one line.** Every success of `constraints.or_` over the solver members
+returns a vector at which at least one relation of the text holds (no independence hypothesis). -/
+theorem join_or_some_holds [DecidableEq C] (env : Env C K) (isPos : C → Bool) (d : C)
+    (hpos : ∀ c, isPos c = true → 0 < env.ι c) (htol : 0 ≤ env.tol) (hrel : 0 ≤ env.rel)
+    (rels : List (Rel C)) (codes : List (Assign C)) (x : List K) (draws : List Nat)
+    (hrec : List.Forall₂ (fun r c => recognise isPos d r c = true) rels codes)
+    (hstrict : ∀ r ∈ rels, r.cmp.strict = true → 0 < env.tol)
+    (y : List K) (t links : Nat) (st : Comb.Stats)
+    (hr : joinOr env codes x draws = (.success y t links, st)) :
+    ∃ r ∈ rels, r.holds env y := by
+  obtain ⟨i, hlt, hm⟩ := C17.or_success_fixed (member env codes) id codes.length (100 * codes.length) x draws
+    y t links st (fun h => by omega) hr
+  have hlen := hrec.length_eq
+  have hi : i < rels.length := by omega
+  have hrc : recognise isPos d rels[i] codes[i] = true := List.forall₂_iff_get.mp hrec |>.2 i hi hlt
+  have hrm : rels[i] ∈ rels := List.getElem_mem hi
+  have hne : rels[i].cmp = .ne → 0 < env.tol := fun h => hstrict _ hrm (by rw [h]; rfl)
+  unfold member at hm
+  rw [List.getElem?_eq_getElem hlt] at hm
+  simp only at hm
+  split at hm
+  · rename_i hdef
+    have hex : codes[i].exec env y = y := Option.some.inj hm
+    have hiy : rels[i].i < y.length := by
+      unfold Assign.defined at hdef
+      simp only [Bool.and_eq_true, decide_eq_true_eq] at hdef
+      rw [← recognise_i hrc]; exact hdef.1
+    refine ⟨rels[i], hrm, margin_holds env htol hrel rels[i] codes[i].factor y ?_ (hstrict _ hrm)
+      (fixed_point_margin env isPos d hpos hrel rels[i] codes[i] y hrc hiy hne hex)⟩
+    intro hc
+    exact isBool_eval_nonneg env _ _ ((recognise_spec hrc).2.1 hc)
+  · simp at hm
+
 /-! ## non-vacuity: the hypotheses are satisfiable by a concrete, non-trivial instance -/
 
 /-- `x0 <= x1*3` (no `!=` lines), numerals read as rationals, `tol = rel = 1/1000`, at `x = [10, 2]` -/
 example :
-    let env : Env Nat ℚ := ⟨fun n => (n : ℚ), 1 / 1000, 1 / 1000⟩
+    let env : Env Nat ℚ := { ι := fun n => (n : ℚ), tol := 1 / 1000, rel := 1 / 1000 }
     let r : Rel Nat := ⟨0, .le, .mul (.var 1) (.num 3)⟩
     let code := emit r [] 11
     recognise (fun c => decide (0 < c)) 1 r code = true ∧ r.rhs.mentions r.i = false ∧
@@ -412,7 +703,7 @@ example :
   refine ⟨List.Forall₂.cons (by decide) (List.Forall₂.cons (by decide) List.Forall₂.nil), by decide⟩
 
 example :
-    let env : Env Nat ℚ := ⟨fun n => (n : ℚ), 0, 0⟩
+    let env : Env Nat ℚ := { ι := fun n => (n : ℚ), tol := 0, rel := 0 }
     Consistent env [⟨0, .ge, .num 1⟩, ⟨0, .le, .num 4⟩] ∧ IsBound (⟨0, .ge, .num 1⟩ : Rel Nat) ∧
       (emit (⟨0, .ge, .num 1⟩ : Rel Nat) [] 11).factor = .false_ := by
   refine ⟨?_, ⟨Or.inr rfl, 1, rfl⟩, rfl⟩
